@@ -30,7 +30,7 @@ SameColumnsAsMultiset(M1, M2, nr, nc) ==
       /\ Cardinality({k \in 1..nc : Col(M1, nr, k) = Col(M1, nr, j)}) = Cardinality({k \in 1..nc : Col(M2, nr, k) = Col(M1, nr, j)})
       /\ Cardinality({k \in 1..nc : Col(M2, nr, k) = Col(M2, nr, j)}) = Cardinality({k \in 1..nc : Col(M1, nr, k) = Col(M2, nr, j)})
 
-(* documented order: columns sorted by the reactions' label (= rule); rx_rank[j] = rank of the label of column j,
+(* (stricter than C17, reported as a deviation only) documented order: columns sorted by the reactions' label (= rule); rx_rank[j] = rank of the label of column j,
    rule_rank[k] = rank of the rule of the network's k-th reaction.  Within one label the order is not specified:
    the columns of a label block are compared, as a multiset, with the exact columns of the reactions of that rule *)
 ColumnsFollowLabels(c, S, E, nr, nc) ==
@@ -101,7 +101,7 @@ Verdict(c) ==
       <<"S-axes", NoDup(c.sp_order) /\ Range(c.sp_order) = SpSet(N) /\ Len(c.rx_order) = nc>>,
       <<"S-shape", Len(c.S) = nr /\ \A i \in 1..nr : Len(c.S[i]) = nc>>,
       <<"S-entries-produced-minus-consumed", c.integral /\ SameColumnsAsMultiset(c.S, E, nr, nc)>>,
-      <<"S-columns-ordered-by-label", c.integral /\ ColumnsFollowLabels(c, c.S, E, nr, nc)>>,
+      <<"note:C17Cases:S-columns-not-ordered-by-label", c.integral /\ ColumnsFollowLabels(c, c.S, E, nr, nc)>>,
       <<"S-agrees-with-incidence-matrix",
           /\ Range(c.inc_sp) = SpSet(N) /\ Range(c.inc_rx) = Ids(N)
           /\ \A i \in 1..nr, j \in 1..nc :
